@@ -47,6 +47,7 @@ def show(t):
 
 class Eval:
     helpers: Dict[str, ast.FunctionDef] = {}      # module-level single-return helper functions (inlined at their call sites)
+    methods: Dict[str, ast.FunctionDef] = {}      # the analysed class's other methods: `self.m(...)` is inlined (a generator method is fused into the loop that consumes it)
 
     def __init__(self, ctx, rel, qual, flag: bool, self_attrs=None):
         self.ctx, self.rel, self.qual, self.flag = ctx, rel, qual, flag
@@ -59,6 +60,9 @@ class Eval:
         self.calls: List[ast.Call] = []
         self.lambdify_modules: List[Any] = []
         self.local_funcs: Dict[str, ast.FunctionDef] = {}
+        self.depth = 0
+        self.inlined_methods = set()
+        self.returned = False
 
     # ---- expressions
     def ev(self, n) -> Any:
@@ -234,6 +238,13 @@ class Eval:
             return ("LAMBDIFY", args[0] if args else ("?",), args[1] if len(args) > 1 else ("?",))
         if isinstance(n.func, ast.Name) and n.func.id in self.local_funcs:
             return self.inline(self.local_funcs[n.func.id], n, args, closure=True)
+        if isinstance(n.func, ast.Attribute) and isinstance(n.func.value, ast.Name) and n.func.value.id == "self" and n.func.attr in self.methods \
+                and self.depth < 4:
+            h = self.methods[n.func.attr]
+            self.inlined_methods.add(h.name)
+            if any(isinstance(x, (ast.Yield, ast.YieldFrom)) for x in ast.walk(h)):
+                return ("GENCALL", h.name, tuple(args), tuple((k.arg, self.ev(k.value)) for k in n.keywords))
+            return self.inline(h, n, args, method=True)
         if isinstance(n.func, ast.Name) and n.func.id in self.helpers and n.func.id not in self.env:
             # inline a module-level helper whose body is a single `return <expr>`
             h = self.helpers[n.func.id]
@@ -281,9 +292,30 @@ class Eval:
             return ("APPLY", callee, tuple(args), tuple(kws))
         return ("CALL", ast.unparse(n.func), tuple(args))
 
-    def inline(self, h: ast.FunctionDef, n: ast.Call, args, closure=False):
-        """evaluate a local closure (or helper) body with its parameters bound; straight-line code, flag branches and one final return"""
+    def sub_eval(self, closure=False):
+        sub = Eval(self.ctx, self.rel, self.qual, self.flag, self.attrs)
+        sub.attrs = self.attrs
+        sub.env = dict(self.env) if closure else {}
+        sub.local_funcs = dict(self.local_funcs)
+        sub.loop_ids = self.loop_ids + 100
+        sub.depth = self.depth + 1
+        sub.inlined_methods = self.inlined_methods
+        sub.loopctx, sub.stores, sub.appends = [], [], {}
+        return sub
+
+    def absorb(self, sub):
+        self.problems += sub.problems
+        self.flag_uses += sub.flag_uses
+        self.calls += sub.calls
+        self.lambdify_modules += sub.lambdify_modules
+        self.loop_ids = max(self.loop_ids, sub.loop_ids)
+
+    def inline(self, h: ast.FunctionDef, n: ast.Call, args, closure=False, method=False):
+        """evaluate a local closure (or helper / method of the same class) body with its parameters bound; straight-line code, flag branches and
+        one return reached"""
         pos = [a.arg for a in h.args.posonlyargs + h.args.args]
+        if method and pos:
+            pos = pos[1:]
         params = pos + [a.arg for a in h.args.kwonlyargs]
         if h.args.vararg or h.args.kwarg or len(args) > len(pos):
             return ("OTHER", ast.unparse(n))
@@ -293,19 +325,11 @@ class Eval:
                 bound[k.arg] = self.ev(k.value)
         defaults = dict(zip(pos[len(pos) - len(h.args.defaults):], h.args.defaults))
         defaults.update({a.arg: d for a, d in zip(h.args.kwonlyargs, h.args.kw_defaults) if d is not None})
-        sub = Eval(self.ctx, self.rel, self.qual, self.flag, self.attrs)
-        sub.attrs = self.attrs
-        sub.env = dict(self.env) if closure else {}
-        sub.local_funcs = dict(self.local_funcs)
-        sub.loop_ids = self.loop_ids + 100
+        sub = self.sub_eval(closure)
         for p_ in params:
             sub.env[p_] = bound[p_] if p_ in bound else (self.ev(defaults[p_]) if p_ in defaults else ("MISSING", p_))
-        sub.loopctx, sub.stores, sub.appends = [], [], {}
         sub.block(h.body)
-        self.problems += sub.problems
-        self.flag_uses += sub.flag_uses
-        self.calls += sub.calls
-        self.lambdify_modules += sub.lambdify_modules
+        self.absorb(sub)
         rets = [y for y in sub.yields if y[0] == "RETURN"]
         if len(rets) != 1 or rets[0][2] or sub.stores or sub.appends:
             self.problems.append(f"local function {h.name} is not straight-line code with one return")
@@ -325,6 +349,8 @@ class Eval:
     # ---- statements
     def block(self, stmts):
         for s in stmts:
+            if self.returned:
+                return
             self.stmt(s)
 
     def stmt(self, s):
@@ -361,6 +387,8 @@ class Eval:
             self.local_funcs[s.name] = s
         elif isinstance(s, ast.Return):
             self.yields.append(("RETURN", self.ev(s.value) if s.value else None, tuple(self.loopctx)))
+            if not self.loopctx:
+                self.returned = True
         else:
             self.problems.append(f"statement {type(s).__name__} not understood in the temporaries protocol")
 
@@ -397,29 +425,124 @@ class Eval:
 
     appends: Dict[str, Any] = {}
 
+    def _snapshot(self):
+        import copy as _c
+        return (dict(self.env), dict(self.attrs), {k: list(v) for k, v in self.appends.items()}, list(self.stores), list(self.yields), list(self.problems),
+                list(self.flag_uses), list(self.calls), list(self.lambdify_modules), self.loop_ids, dict(self.local_funcs))
+
+    def _restore(self, snap):
+        (self.env, attrs, self.appends, self.stores, self.yields, self.problems, self.flag_uses, self.calls, self.lambdify_modules, self.loop_ids,
+         self.local_funcs) = (dict(snap[0]), snap[1], {k: list(v) for k, v in snap[2].items()}, list(snap[3]), list(snap[4]), list(snap[5]), list(snap[6]),
+                              list(snap[7]), list(snap[8]), snap[9], dict(snap[10]))
+        self.attrs.clear()
+        self.attrs.update(attrs)
+
+    def _accumulator(self, s: ast.For):
+        """`acc.append(v)` as the LAST statement of the loop body, acc a list that exists before the loop and is read in the body:
+        -> the key of acc, else None"""
+        if not s.body or s.orelse:
+            return None
+        last = s.body[-1]
+        if not (isinstance(last, ast.Expr) and isinstance(last.value, ast.Call) and isinstance(last.value.func, ast.Attribute)
+                and last.value.func.attr == "append" and len(last.value.args) == 1 and not last.value.keywords):
+            return None
+        key = ast.unparse(last.value.func.value)
+        if self.list_value(key) is None:
+            return None
+        reads = sum(1 for st in s.body[:-1] for x in ast.walk(st) if isinstance(x, (ast.Name, ast.Attribute)) and ast.unparse(x) == key)
+        others = sum(1 for st in s.body[:-1] for x in ast.walk(st) if isinstance(x, ast.Call) and isinstance(x.func, ast.Attribute)
+                     and ast.unparse(x.func.value) == key and x.func.attr in ("append", "extend", "insert", "pop", "remove", "clear", "sort", "reverse"))
+        return key if reads and not others else None
+
     def loop(self, s: ast.For):
         src = self.ev(s.iter)
+        if src[0] == "GENCALL":
+            return self.fuse(s, src)
         self.loop_ids += 1
         lid = self.loop_ids
         I = ("I", lid)
         dom, elem = self.domain_of(src)
-        self.bind(s.target, elem(I))
         if src[0] == "RANGE":
             ctx = ("FOR-RANGE", src[1], lid)
         elif src[0] == "ENUM":
             ctx = ("FOR-RANGE", ("LEN", src[1]), lid)
         else:
             ctx = ("FOR-EACH", src, lid)
+        acc = self._accumulator(s) if not self.loopctx else None
+        if acc is not None:
+            # pass 1: what is appended per iteration (acc read as its value before the loop); pass 2: acc read as init + entries[:I]
+            init = self.list_value(acc)
+            snap = self._snapshot()
+            self.bind(s.target, elem(I))
+            self.loopctx = self.loopctx + [ctx]
+            self.block(s.body)
+            self.loopctx = self.loopctx[:-1]
+            new = self.appends.get(acc, [])[len(snap[2].get(acc, [])):]
+            self._restore(snap)
+            self.loop_ids = lid
+            if len(new) != 1 or new[0][1] != (ctx,):
+                self.problems.append(f"the list `{acc}` is extended conditionally / more than once per iteration of `for {ast.unparse(s.target)} in {ast.unparse(s.iter)}`")
+                acc = None
+            else:
+                entries = self.gen(dom, self.abstract_elem(new[0][0], I))
+                self.set_list(acc, self.concat(init, ("SLICE", entries, None, I)))
         before = {k: len(v) for k, v in self.appends.items()}
+        self.bind(s.target, elem(I))
         self.loopctx = self.loopctx + [ctx]
         self.block(s.body)
         self.loopctx = self.loopctx[:-1]
+        if acc is not None:
+            self.appends[acc] = self.appends.get(acc, [])[:before.get(acc, 0)]
+            self.set_list(acc, self.concat(init, entries))
         # a list that was empty before the loop and receives exactly one unconditional append per iteration is [entry(I) for I in dom]
         if not self.loopctx:
             for key, lst in self.appends.items():
                 new = lst[before.get(key, 0):]
                 if len(new) == 1 and new[0][1] == (ctx,) and self.list_value(key) == ("EMPTY",):
                     self.set_list(key, self.gen(dom, self.abstract_elem(new[0][0], I)))
+
+    def fuse(self, s: ast.For, src):
+        """`for x in self.gen_method(...)`: the consumer's body runs once per yield site of the producer, under the producer's loops"""
+        h = self.methods[src[1]]
+        pos = [a.arg for a in h.args.posonlyargs + h.args.args][1:]
+        sub = self.sub_eval()
+        bound = dict(zip(pos, src[2]))
+        bound.update({k: v for k, v in src[3] if k in pos or k in [a.arg for a in h.args.kwonlyargs]})
+        defaults = dict(zip(pos[len(pos) - len(h.args.defaults):], h.args.defaults)) if h.args.defaults else {}
+        for p_ in pos + [a.arg for a in h.args.kwonlyargs]:
+            sub.env[p_] = bound[p_] if p_ in bound else (self.ev(defaults[p_]) if p_ in defaults else ("MISSING", p_))
+        sub.block(h.body)
+        self.absorb(sub)
+        if sub.stores or any(sub.appends.values()):
+            self.problems.append(f"generator method {h.name} also stores into containers")
+        for y in sub.yields:
+            if y[0] == "RETURN":
+                continue
+            kind, val, lctx = y
+            if kind == "YIELD":
+                self.bind(s.target, val)
+                self.loopctx = self.loopctx + list(lctx)
+                self.block(s.body)
+                self.loopctx = self.loopctx[:len(self.loopctx) - len(lctx)]
+            else:
+                # yield from <list term>: a loop over that term
+                term = val
+                self.loop_ids += 1
+                lid = self.loop_ids
+                I = ("I", lid)
+                if term[0] == "GEN" and term[1][0] == "ZIPDOM":
+                    srct = ("ZIP",) + tuple(term[1][1:])
+                    el = self.subst_I(term[2], I)
+                elif term[0] == "GEN" and term[1][0] == "DOM":
+                    srct = term[1][1]
+                    el = self.subst_I(term[2], I)
+                else:
+                    srct = term
+                    el = self.domain_of(term)[1](I)
+                self.bind(s.target, el)
+                self.loopctx = self.loopctx + list(lctx) + [("FOR-EACH", srct, lid)]
+                self.block(s.body)
+                self.loopctx = self.loopctx[:len(self.loopctx) - len(lctx) - 1]
 
     def list_value(self, key):
         if key.startswith("self."):
@@ -528,8 +651,11 @@ def check_python_block(ctx: core.Ctx, mod: ast.Module, rel="py/formak/python.py"
                     and isinstance(s.value, ast.Constant))]) == 1 and isinstance(f.body[-1], ast.Return)}
     n1 = 0
     flag_uses = set()
+    Eval.methods = {m.name: m for m in cls.body if isinstance(m, ast.FunctionDef) and m.name not in ("__init__", "_compile", "execute")}
+    inlined = set()
     for flag in (True, False):
         e = Eval(ctx, rel, qual, flag, base).run(comp)
+        inlined |= e.inlined_methods
         for p in e.problems:
             ctx.error(f"{rel}:{qual}: {p}")
         flag_uses |= set(e.flag_uses)
@@ -572,6 +698,10 @@ def check_python_block(ctx: core.Ctx, mod: ast.Module, rel="py/formak/python.py"
     ctx.floor("TMP-1", n1, 4, "prefix/body entry obligations of python.BasicBlock._compile (2 flag settings)")
     # ---- TMP-4: the flag only gates cse() and simplify()
     gated = _flag_gates(comp, "common_subexpression_elimination")
+    for hn in sorted(inlined):
+        gated += _flag_gates(Eval.methods[hn], "common_subexpression_elimination")
+        trust_sig(ctx, rel, f"BasicBlock.{hn}", Eval.methods[hn])
+        ctx.functions.append(f"python.BasicBlock.{hn} (inlined into _compile)")
     for what, okg, line in gated:
         ctx.oblige("TMP-4", f"{rel}:{qual}", f"CSE flag gates `{what}`", okg, file=rel, func=qual, construct="flag gates " + what[:60],
                    msg=f"the CSE flag also decides `{what}`: results may differ between the two settings", line=line)
@@ -670,6 +800,11 @@ def _flag_gates(fn, flagname):
                     if isinstance(sub, ast.Assign):
                         allowed = {"cse", "simplify", "Symbol", "count"}
                         if not names or not names <= allowed or not (names & {"cse", "simplify"}):
+                            ok = False
+                    elif isinstance(sub, ast.Return) and sub.value is not None:
+                        # in a helper: `if flag: return simplify(x)`, `if not flag: return [], exprs` / `return cse(...)`: what is returned in
+                        # either setting is judged by TMP-1..3 on the evaluated result; here only: nothing but cse / simplify is called
+                        if not names <= {"cse", "simplify", "Symbol", "count"}:
                             ok = False
                     else:
                         ok = False
@@ -776,8 +911,12 @@ def check_cpp_block(ctx: core.Ctx, mod: ast.Module, rel="py/formak/cpp.py"):
                line=init.lineno)
     cfgattr = next((k for k, v in e0.attrs.items() if v == ("PARAM", "config")), "_config")
     n = 0
+    Eval.methods = {m.name: m for m in cls.body if isinstance(m, ast.FunctionDef) and m.name not in ("__init__", "compile")}
+    inlined = set()
+    order_ok = True
     for flag in (True, False):
         e = Eval(ctx, rel, qual, flag, {"_targets": ("TARGETS",), "_exprs": ("EXPRS",), cfgattr: ("CFG",)}).run(comp)
+        inlined |= e.inlined_methods
         for p in e.problems:
             ctx.error(f"{rel}:{qual}: {p}")
         P = ("CSE.P", ("EXPRS",)) if flag else ("EMPTY",)
@@ -787,6 +926,9 @@ def check_cpp_block(ctx: core.Ctx, mod: ast.Module, rel="py/formak/cpp.py"):
         ys = [y for y in e.yields if y[0] == "YIELD"]
         pre = [y for y in ys if y[2] and y[2][-1][0] == "FOR-EACH" and _src_root(y[2][-1][1]) == "P"]
         tgt = [y for y in ys if y not in pre]
+        # order of emission (result based): every temporary's declaration site precedes the first target's
+        if pre and tgt and max(ys.index(y) for y in pre) > min(ys.index(y) for y in tgt):
+            order_ok = False
         # prefix yields
         if flag:
             okp = len(pre) == 1
@@ -830,12 +972,14 @@ def check_cpp_block(ctx: core.Ctx, mod: ast.Module, rel="py/formak/cpp.py"):
         ctx.oblige("TMP-3", where, f"target yield(s): {[show(y[1]) for y in tgt]}", okt, file=rel, func=qual, construct="target assignments " + tag,
                    msg=f"targets are not assigned per the protocol: {why}", line=comp.lineno)
     # order: the prefix loop statement precedes the target loop statement
-    loops = [s for s in comp.body if isinstance(s, ast.For)]
-    order_ok = len(loops) == 2 and "zip" not in ast.unparse(loops[0].iter) and "zip" in ast.unparse(loops[1].iter)
     ctx.oblige("TMP-3", f"{rel}:{qual}", "temporaries are emitted before the first target", order_ok, file=rel, func=qual, construct="emit order",
                msg="the loop emitting temporaries does not precede the loop emitting targets (use before definition in the generated C++)",
                line=comp.lineno)
     gated = _flag_gates(comp, "common_subexpression_elimination")
+    for hn in sorted(inlined):
+        gated += _flag_gates(Eval.methods[hn], "common_subexpression_elimination")
+        trust_sig(ctx, rel, f"BasicBlock.{hn}", Eval.methods[hn])
+        ctx.functions.append(f"cpp.BasicBlock.{hn} (inlined into compile)")
     for what, okg, line in gated:
         ctx.oblige("TMP-4", f"{rel}:{qual}", f"CSE flag gates `{what}`", okg, file=rel, func=qual, construct="flag gates " + what[:60],
                    msg=f"the CSE flag also decides `{what}`", line=line)
